@@ -107,7 +107,7 @@ func (g *gen) behC10tls() M {
 // unknown message types (every interesting byte value, at idle, in a batch and
 // inside COPY), unknown Describe / Close targets.
 func (g *gen) behC02() M {
-	steps := []any{startup("u")}
+	steps := []any{g.startupX("u")}
 	n := 1 + g.rng.Intn(5)
 	for i := 0; i < n; i++ {
 		tyb := []int{0, 0, 1, 9, 10, 13, 27, 34, 37, 92, 127, 128, 159, 173, 255, 70, 97}[g.rng.Intn(17)]
@@ -168,6 +168,31 @@ func (g *gen) deadCtx(cfg M) M {
 
 func startup(user string) M {
 	return M{"k": "send", "m": M{"t": "Startup", "term": true, "kvs": []any{M{"k": "user", "v": user}, M{"k": "database", "v": "db"}}}}
+}
+
+// wellKnownKV: a start-up parameter that client libraries really send (libpq's options / PGOPTIONS with
+// complete and dangling arguments, replication, protocol extensions, run-time settings). To the server these are
+// opaque pairs like any other.
+func (g *gen) wellKnownKV() M {
+	k := g.pick("options", "options", "options", "replication", "search_path", "DateStyle", "TimeZone", "extra_float_digits",
+		"client_encoding", "application_name", "_pq_.ext", "IntervalStyle", "statement_timeout", "sslmode", "password", "fallback_application_name")
+	v := g.pick("", "-c", "-c geqo=off", "-c geqo=off -c", "-cgeqo=off", "--search-path=x", "--", "-", "-c =", "-c user=other -c database=other",
+		"-c server_version=0", "\\", "a\\ b", " ", "database", "true", "on", "UTF8", "ISO, MDY", "3", "0", "'", "\"", "=", "x=y")
+	return M{"k": k, "v": v}
+}
+
+// startupX: the usual start-up packet, now and then carrying well-known parameters as well
+func (g *gen) startupX(user string) M {
+	st := startup(user)
+	if g.chance(0.25) {
+		m := st["m"].(M)
+		kvs := m["kvs"].([]any)
+		for i := 0; i < 1+g.rng.Intn(3); i++ {
+			kvs = append(kvs, g.wellKnownKV())
+		}
+		m["kvs"] = kvs
+	}
+	return st
 }
 
 func send(m M) M { return M{"k": "send", "m": m} }
@@ -296,7 +321,7 @@ func (g *gen) script(maxStmts int, maxOps int) M {
 }
 
 func (g *gen) behC05() M {
-	steps := []any{startup("u")}
+	steps := []any{g.startupX("u")}
 	n := 1 + g.rng.Intn(5)
 	for i := 0; i < n; i++ {
 		steps = append(steps, send(M{"t": "Q", "q": g.script(3, 6)}))
@@ -313,7 +338,7 @@ func (g *gen) name() string {
 }
 
 func (g *gen) behC06() M {
-	steps := []any{startup("u")}
+	steps := []any{g.startupX("u")}
 	n := 1 + g.rng.Intn(30)
 	// a closed name is unknown: referring to it afterwards is an error like any other
 	for i := 0; i < n; i++ {
@@ -434,7 +459,7 @@ func (g *gen) customCache(cfg M, steps []any, p float64) {
 // behC07: name-resolution histories: every Parse is a fresh definition; a Sync
 // follows every message.
 func (g *gen) behC07() M {
-	steps := []any{startup("u")}
+	steps := []any{g.startupX("u")}
 	n := 1 + g.rng.Intn(30)
 	pfrom := map[string]string{}
 	tainted := map[string]bool{}
@@ -528,7 +553,7 @@ func (g *gen) codeList(n int) []any {
 // behC08: Bind parameters and format codes with rich values: up to 300
 // parameters, typed declared parameters, random result columns.
 func (g *gen) behC08() M {
-	steps := []any{startup("u")}
+	steps := []any{g.startupX("u")}
 	rounds := 1 + g.rng.Intn(3)
 	for r := 0; r < rounds; r++ {
 		g.id++
@@ -695,7 +720,7 @@ func (g *gen) richErr() M {
 }
 
 func (g *gen) behC17() M {
-	steps := []any{startup("u")}
+	steps := []any{g.startupX("u")}
 	n := 1 + g.rng.Intn(6)
 	for i := 0; i < n; i++ {
 		g.id++
@@ -727,7 +752,7 @@ func (g *gen) behC17() M {
 // payloads (binary, up to 20 KiB), random handler stopping points, stray COPY
 // messages afterwards, simple and extended protocol.
 func (g *gen) behC13() M {
-	steps := []any{startup("u")}
+	steps := []any{g.startupX("u")}
 	rounds := 1 + g.rng.Intn(3)
 	for r := 0; r < rounds; r++ {
 		g.id++
@@ -934,6 +959,9 @@ func (g *gen) behC12() M {
 			v = g.text(3000)
 		}
 		kvs = append(kvs, M{"k": g.pick("user", "user", "database", "application_name", "client_encoding", "k", g.text(6)), "v": v})
+		if g.chance(0.3) {
+			kvs = append(kvs, g.wellKnownKV())
+		}
 	}
 	steps = append(steps, send(M{"t": "Startup", "term": !g.chance(0.1), "kvs": kvs}))
 	if cfg["auth"] == "clear" {
@@ -964,7 +992,7 @@ func (g *gen) behC19() M {
 	if g.chance(0.6) {
 		cfg["term"] = g.pick("ok", "ok", "fail")
 	}
-	steps := []any{startup(g.text(8))}
+	steps := []any{g.startupX(g.text(8))}
 	if cfg["auth"] == "clear" {
 		steps = append(steps, send(M{"t": "p", "pw": "good"}))
 	}
@@ -1111,6 +1139,9 @@ func (g *gen) behC20() M {
 	if !beyond {
 		g.id++
 		st := M{"id": g.id, "cols": []any{}, "oids": []any{}, "toks": toks, "prog": []any{M{"op": "complete", "tag": "OK"}, M{"op": "ret", "r": "nil"}}}
+		if g.chance(0.15) {
+			st["nodeclare"] = true // the handler declares no parameters, whatever markers its text holds: none are announced
+		}
 		// the frontend may prespecify any number of parameter types: Describe still announces what ParseParameters reported
 		nm := g.pick("", "", "Lookup", "s_1")
 		steps = append(steps, startup("u"), send(M{"t": "P", "name": nm, "q": M{"id": g.id, "parse": "ok", "stmts": []any{st}}, "noids": []int{0, 0, 1, 2, 3, 7}[g.rng.Intn(6)]}))
@@ -1243,7 +1274,7 @@ func (g *gen) scnC14() M {
 // behC09: rows over all 13 types, 1..8 columns, up to 10 rows, random NULL
 // kinds and empties, both protocols, random result-format lists.
 func (g *gen) behC09() M {
-	steps := []any{startup("u")}
+	steps := []any{g.startupX("u")}
 	rounds := 1 + g.rng.Intn(3)
 	for r := 0; r < rounds; r++ {
 		g.id++
